@@ -340,6 +340,24 @@ func checkCall(cc callCase) error {
 		if err := cbCheck(bg, fn+"Func group form after rendering"); err != nil {
 			return err
 		}
+		// the group changes without its item count changing (a token chained onto the statement the
+		// Group form returned): every entry point must show it
+		retF.Id("latetoken")
+		var late [3]string
+		func() {
+			defer func() { _ = recover() }()
+			late[0] = grp.GoString()
+		}()
+		b1, b2 := &bytes.Buffer{}, &bytes.Buffer{}
+		if grp.Render(b1) == nil {
+			late[1] = b1.String()
+		}
+		if grp.RenderWithFile(b2, jen.NewFile("")) == nil {
+			late[2] = b2.String()
+		}
+		if late[0] != late[1] || late[1] != late[2] {
+			return fmt.Errorf("%sFunc: after a token was chained onto the returned statement, Group GoString / Render / RenderWithFile disagree: %q / %q / %q", fn, late[0], late[1], late[2])
+		}
 	}
 	// group form
 	b7, b8 := &recipe.Builder{}, &recipe.Builder{}
@@ -408,6 +426,35 @@ func checkCall(cc callCase) error {
 			if (e1 == nil) != (e2 == nil) || after != want {
 				return fmt.Errorf("%s: argument %d was modified by the constructing calls: it now renders %q, a fresh build of the same argument renders %q", fn, i, after, want)
 			}
+		}
+	}
+	// the caller's slice: variadic constructs called as X(xs...) with a slice that has spare
+	// capacity, the result extended by chaining, then the same slice used again
+	if isVariadicCode(fn) && len(c.Items) > 0 {
+		bs := &recipe.Builder{}
+		mk := func() []jen.Code {
+			xs := make([]jen.Code, 0, len(c.Items)+6)
+			for _, it := range c.Items {
+				xs = append(xs, (&recipe.Builder{}).Code(it))
+			}
+			return xs
+		}
+		_ = bs
+		xs := mk()
+		var first, second, wantFirst *jen.Statement
+		if perr := hx.Safe(func() error {
+			first = callVariadic(fn, c, xs).Op("+").Id("viaFirst")
+			second = callVariadic(fn, c, xs).Op("-").Id("viaSecond").Id("more")
+			wantFirst = callVariadic(fn, c, mk()).Op("+").Id("viaFirst")
+			return nil
+		}); perr != nil {
+			return fmt.Errorf("%s(xs...) twice on one slice: %v", fn, perr)
+		}
+		_ = second
+		o1, e1 := renderCode(first)
+		o2, e2 := renderCode(wantFirst)
+		if (e1 == nil) != (e2 == nil) || o1 != o2 {
+			return fmt.Errorf("%s(xs...): the statement built first renders %q after the same slice was used for a second %s(xs...) and that one was extended; built from a fresh slice it renders %q", fn, o1, fn, o2)
 		}
 	}
 	// a re-entrant callback: the callback of g.XFunc also emits into the enclosing group g. The
@@ -533,6 +580,18 @@ func TestC14(t *testing.T) {
 		})
 	}
 
+	// (2') the entry points of a Group holding valid statements, before and after its content changes
+	// without its item count changing
+	hx.Rapid(r, t, hx.Check[groupCase]{Name: "group_entry_points", Fn: checkGroup}, r.N(400, 2500), func(rt *rapid.T) groupCase {
+		c := groupCase{Late: rapid.IntRange(0, 5).Draw(rt, "late")}
+		for i := rapid.IntRange(1, 4).Draw(rt, "nstmts"); i > 0; i-- {
+			c.Stmts = append(c.Stmts, gen.Stmt(rt, 2))
+		}
+		r.NonTrivial(recipe.JSON(c))
+		r.Class("group_entry_points")
+		return c
+	})
+
 	// (3)
 	ckP := hx.Check[progCase]{Name: "program_form_policy", Fn: checkProg}
 	if !hx.Replay(r, ckP) {
@@ -623,4 +682,102 @@ func callReentrant(b *recipe.Builder, f reflect.Value, outer *jen.Group, c *reci
 		}))
 	}
 	return f.Call(args)[0].Interface().(*jen.Statement)
+}
+
+func isVariadicCode(fn string) bool {
+	f, ok := recipe.Funcs[fn]
+	if !ok {
+		return false
+	}
+	t := reflect.TypeOf(f)
+	return t.IsVariadic() && t.In(t.NumIn()-1).Elem() == reflect.TypeOf((*jen.Code)(nil)).Elem()
+}
+
+// callVariadic calls the package function fn with the given Go slice as its variadic argument.
+func callVariadic(fn string, c *recipe.Call, xs []jen.Code) *jen.Statement {
+	f := reflect.ValueOf(recipe.Funcs[fn])
+	var args []reflect.Value
+	if f.Type().NumIn() == 2 {
+		o := jen.Options{}
+		if c.Opts != nil {
+			o = jen.Options{Open: string(c.Opts.Open), Close: string(c.Opts.Close), Separator: string(c.Opts.Separator), Multi: c.Opts.Multi}
+		}
+		args = append(args, reflect.ValueOf(o))
+	}
+	args = append(args, reflect.ValueOf(xs))
+	return f.CallSlice(args)[0].Interface().(*jen.Statement)
+}
+
+type groupCase struct {
+	Stmts []*recipe.Node `json:"stmts"`
+	Late  int            `json:"late"` // which returned statement gets a continuation later
+}
+
+// checkGroup builds { stmts... } through BlockFunc using the *Group method form for every
+// statement, and compares GoString / Render / RenderWithFile — twice, and once more after a
+// continuation was chained onto one of the statements the Group form returned.
+func checkGroup(c groupCase) error {
+	b := &recipe.Builder{}
+	var grp *jen.Group
+	var rets []*jen.Statement
+	if perr := hx.Safe(func() error {
+		jen.BlockFunc(func(g *jen.Group) {
+			grp = g
+			for _, n := range c.Stmts {
+				if len(n.Calls) == 0 {
+					continue
+				}
+				st := b.CallGroup(g, n.Calls[0].Fn, &n.Calls[0])
+				rest := &recipe.Node{Calls: n.Calls[1:]}
+				for i := range rest.Calls {
+					st = b.CallMethod(st, rest.Calls[i].Fn, &rest.Calls[i])
+				}
+				rets = append(rets, st)
+			}
+		})
+		return nil
+	}); perr != nil {
+		return perr
+	}
+	three := func() (res [3]string) {
+		run := func(k int, f func() (string, error)) {
+			if perr := hx.Safe(func() error {
+				out, err := f()
+				if err != nil {
+					res[k] = "ERROR"
+				} else {
+					res[k] = "OK:" + out
+				}
+				return nil
+			}); perr != nil {
+				res[k] = "ERROR"
+			}
+		}
+		run(0, func() (string, error) { return grp.GoString(), nil })
+		run(1, func() (string, error) { bb := &bytes.Buffer{}; err := grp.Render(bb); return bb.String(), err })
+		run(2, func() (string, error) {
+			bb := &bytes.Buffer{}
+			err := grp.RenderWithFile(bb, jen.NewFile(""))
+			return bb.String(), err
+		})
+		return
+	}
+	for round := 0; round < 2; round++ {
+		res := three()
+		if res[0] != res[1] || res[1] != res[2] {
+			return fmt.Errorf("Group GoString / Render / RenderWithFile(NewFile(\"\")) disagree: %q / %q / %q", res[0], res[1], res[2])
+		}
+	}
+	if len(rets) > 0 {
+		// a valid continuation: `; late()` after whatever the statement was
+		rets[c.Late%len(rets)].Op(";").Id("late").Call()
+		res := three()
+		if res[0] != res[1] || res[1] != res[2] {
+			return fmt.Errorf("after a continuation was chained onto a statement returned by the Group form: GoString / Render / RenderWithFile disagree: %q / %q / %q", res[0], res[1], res[2])
+		}
+		if strings.HasPrefix(res[1], "OK:") && !strings.Contains(res[1], "late()") {
+			return fmt.Errorf("the continuation chained onto the returned statement does not show up in the group: %q", res[1])
+		}
+	}
+	return nil
 }
